@@ -80,13 +80,15 @@ fn run_script(script: &Script, rt: &tokio::runtime::Runtime) -> Vec<Ev> {
 			options: Default::default(),
 		}))
 	};
+	// every ticket stays alive until the events have been taken: flag addresses identify controls
+	let keep: Arc<Mutex<Vec<Ticket>>> = Arc::new(Mutex::new(Vec::new()));
 	{
 		let factory = factory.clone();
 		let t = job.set_spawn_hook(move |cmd, ctx| factory.on_hook(0, cmd, ctx));
+		keep.lock().unwrap().push(t.clone());
 		rt.block_on(t);
 	}
 
-	let keep: Arc<Mutex<Vec<Ticket>>> = Arc::new(Mutex::new(Vec::new()));
 	let barrier = Arc::new(Barrier::new(script.senders.len()));
 	let mut handles = Vec::new();
 	for (si, ops) in script.senders.iter().enumerate() {
